@@ -29,3 +29,17 @@ Theorem C12_attribute_rebinding_never_interferes : forall h target other,
   may_interfere h target MRebindAttributes other = false.
 Proof. intros h target other. reflexivity. Qed.
 Print Assumptions C12_attribute_rebinding_never_interferes.
+
+(* producers that build their result from newly allocated containers only (copy, deep copies, computed RDMs) return objects
+   that share nothing with what existed before, so by the theorem above they stay independent under every operation *)
+Theorem C12_fresh_object_shares_nothing : forall h h' (fresh old : obj),
+  well_formed h old = true ->
+  (forall l, In l (reach h' old) -> In l (reach h old)) ->
+  (forall l, In l (reach h' fresh) -> ~ In l (dom h)) ->
+  shares h' fresh old = [].
+Proof. exact fresh_object_shares_nothing. Qed.
+Print Assumptions C12_fresh_object_shares_nothing.
+
+Theorem C12_sharing_symmetric : forall h a b, shares h a b = [] -> shares h b a = [].
+Proof. exact shares_nil_sym. Qed.
+Print Assumptions C12_sharing_symmetric.
